@@ -61,3 +61,12 @@ package file_storage
 //@   loop 0 invariant[C16.read.skip] offset == ite($scan >= arg0, 0, arg0 - $scan)
 //@   assert@call Unmarshal[C16.read.position] $scan - 1 >= offset
 //@   ensures[C16.read.all] result1 == nil ==> $scan == $flen
+
+// every handle on the board takes the same lock unless its creator names another one: the default is one fixed,
+// machine-wide file, not a name derived from the path the data file was opened under (two spellings of one file
+// must still exclude each other)
+//@ func NewFileStorage
+//@   nosafety
+//@   safety C16
+//@   modifies *
+//@   assert@call New#2[C16.lock.one] arg0 == "/tmp/dc4bc_storage_lock"
